@@ -93,7 +93,9 @@ pub fn cycles<const V: u32>(d: &mut Driver<V>, p: &Params, ncycles: u64, heap_mb
         // single-size cycles rotate through representative sizes of the size-class structures
         const SINGLE: [usize; 10] = [64, 4096, 60000, 1024, 16384, 256, 8184, 32760, 65528, 24];
         let single = SINGLE[((c / 8) % SINGLE.len() as u64) as usize];
-        let mid_gc = d.rng.chance(1, 2) && !flag("nomidgc");
+        let mid_gc = d.rng.chance(2, 3) && !flag("nomidgc");
+        // the collection with survivors happens half-way or after the last allocation of the cycle
+        let gc_at = if d.rng.chance(1, 2) { budget / 2 } else { budget };
         let mut allocated = 0usize;
         let mut failed = 0u64;
         let mut count = 0u64;
@@ -135,7 +137,7 @@ pub fn cycles<const V: u32>(d: &mut Driver<V>, p: &Params, ncycles: u64, heap_mb
             Driver::<V>::root_set(0, 1, 0);
             allocated += if page_per_object { size.max(4096) } else { size };
             count += 1;
-            if mid_gc && !mid_done && allocated > budget / 2 {
+            if mid_gc && !mid_done && allocated >= gc_at {
                 // a collection while everything is still live
                 mid_done = true;
                 d.gc(0, c % 3 == 0);
